@@ -373,7 +373,8 @@ def c13_cases(u, groups, rng, tier):
         out.append(('(api3 %s)' % name, {'type': name, 'op': 'api3'}))
     for name in groups.get('spell', []) + groups.get('structs', []) + groups.get('scalars', []):
         out.append(('(api3 %s)' % name, {'type': name, 'op': 'api3-valid'}))
-    for kind in ['nil', 'int', 'string', 'ptrint', 'slice', 'map', 'ptrptr', 'nilptr', 'func']:
+    for kind in ['nil', 'int', 'string', 'ptrint', 'slice', 'map', 'ptrptr', 'nilptr', 'func', 'ptrslice', 'ptrmap',
+                 'nilptrint', 'nilptrptr', 'float', 'array', 'chan', 'ptriface', 'ptr', 'struct']:
         out.append(('(badarg %s)' % kind, {'type': 'Leaf', 'op': 'badarg', 'kind': kind}))
     # rejected registrations must not affect other types: the first-use orders of the history check
     sess = [x for x in c07_sessions(u, groups, rng.fork('c13orders'), 'quick')['sessions'][-15:]]
